@@ -139,7 +139,7 @@ func genRef(ch *vs.Choices, p *gProg, from, n int, b gBias, allowLoop bool) (gRe
 	case 3:
 		r.VMode = vInherit
 	}
-	if allowLoop && ch.Draw(100) < b.PLoop {
+	if allowLoop && ch.Pct(b.PLoop) {
 		if b.Matrix && ch.Bool(1, 3) {
 			r.Matrix = [][]string{[]string{"p", "q"}[:1+ch.Draw(2)], []string{"x", "y"}[:1+ch.Draw(2)]}
 		} else {
@@ -159,14 +159,14 @@ func genG(ch *vs.Choices, b gBias) *gProg {
 	p.FileSilent = ch.Bool(1, 2)
 	for i := 0; i < n; i++ {
 		t := &gTask{Idx: i, Name: fmt.Sprintf("t%d", i)}
-		if ch.Draw(100) < b.PDedup {
+		if ch.Pct(b.PDedup) {
 			t.Run = []string{"once", "when_changed"}[ch.Draw(2)]
 		} else if ch.Bool(1, 8) {
 			t.Run = "always"
 		}
 		// deps
 		for k := 0; k < 3; k++ {
-			if ch.Draw(100) < b.PDeps {
+			if ch.Pct(b.PDeps) {
 				if r, ok := genRef(ch, p, i, n, b, true); ok {
 					t.Deps = append(t.Deps, r)
 				}
@@ -175,24 +175,24 @@ func genG(ch *vs.Choices, b gBias) *gProg {
 		nc := 1 + ch.Draw(4)
 		for k := 0; k < nc; k++ {
 			c := gCmd{}
-			if ch.Draw(100) < b.PCall {
+			if ch.Pct(b.PCall) {
 				if r, ok := genRef(ch, p, i, n, b, true); ok {
 					c.Kind = gCall
 					c.Ref = r
 				}
 			}
 			if c.Kind == gProbe {
-				if ch.Draw(100) < b.PFail {
+				if ch.Pct(b.PFail) {
 					c.Fail = 1 + ch.Draw(255)
-					if ch.Draw(100) < b.PIgnore {
+					if ch.Pct(b.PIgnore) {
 						c.Ign = true
 					}
 				}
-				if ch.Draw(100) < b.PLoop {
+				if ch.Pct(b.PLoop) {
 					c.For = []string{"x", "y", "z"}[:1+ch.Draw(3)]
 				}
 			}
-			if ch.Draw(100) < b.PDefer {
+			if ch.Pct(b.PDefer) {
 				c.Defer = true
 				if c.Kind == gCall {
 					// a deferred call's vars are templated late; keep loops out of it
@@ -201,11 +201,7 @@ func genG(ch *vs.Choices, b gBias) *gProg {
 						c.Ref.VMode = vNone
 					}
 					if c.Ref.VMode == vInherit {
-						if b.DeferCallTpl {
-							c.DeferTplV = true
-						} else {
-							c.Ref.VMode = vNone
-						}
+						c.DeferTplV = true
 					}
 				}
 				c.For = nil
@@ -213,10 +209,10 @@ func genG(ch *vs.Choices, b gBias) *gProg {
 			c.Silent = ch.Bool(1, 8)
 			t.Cmds = append(t.Cmds, c)
 		}
-		if ch.Draw(100) < b.PIgnore {
+		if ch.Pct(b.PIgnore) {
 			t.IgnErr = true
 		}
-		if ch.Draw(100) < b.PGuard {
+		if ch.Pct(b.PGuard) {
 			switch ch.Draw(6) {
 			case 0:
 				t.Platform = []string{"match", "nomatch"}[ch.Draw(2)]
@@ -279,6 +275,11 @@ func genG(ch *vs.Choices, b gBias) *gProg {
 			p.Answer = []string{"y", "n", "eof", "yes", "junk"}[ch.Draw(5)]
 		}
 	}
+	for i := range p.Roots {
+		if effRun(p, p.Tasks[p.Roots[i].Target]) == "when_changed" {
+			p.Roots[i].HasV = true
+		}
+	}
 	p.ExitCodeFlag = ch.Bool(1, 2)
 	if b.Cancel && ch.Bool(1, 3) {
 		p.CancelAtEvent = 1 + ch.Draw(12)
@@ -303,6 +304,11 @@ func gSanitize(p *gProg, b gBias) {
 			if run == "once" && r.VMode == vInherit {
 				r.VMode = vNone // a once task has no V of its own
 			}
+			if tr == "when_changed" && r.VMode == vNone {
+				// "V not passed" and "V passed as empty string" are different variable sets but print the
+				// same instance id: a when_changed task is always called with an explicit V
+				r.VMode, r.VLit = vLit, ""
+			}
 		}
 		for i := range t.Deps {
 			fix(&t.Deps[i])
@@ -318,27 +324,17 @@ func gSanitize(p *gProg, b gBias) {
 		if t.VUse != "" && run != "when_changed" {
 			t.VUse = ""
 		}
+		if run == "when_changed" && !b.VEnvSub {
+			// the when_changed hash only sees variables that surface in a compiled string (known defect, C06):
+			// outside C06's own mode every when_changed task starts with a plain probe that prints V
+			t.Cmds[0] = gCmd{Kind: gProbe, Fail: t.Cmds[0].Fail, Ign: t.Cmds[0].Ign}
+			if t.Cmds[0].Kind != gProbe {
+				t.Cmds[0].Fail = 0
+			}
+		}
 		if run == "once" {
 			if t.Requires != "" {
 				t.Requires = "" // V is never passed to once tasks
-			}
-		}
-	}
-	// A deferred task call's vars are not evaluated in the caller (known defect, C02): outside the C02
-	// mode that exposes it, deferred calls therefore only target deduplicated tasks with literal vars,
-	// which need no instance path.
-	for _, t := range p.Tasks {
-		for i := range t.Cmds {
-			c := &t.Cmds[i]
-			if c.Kind == gCall && c.Defer && !b.DeferCallTpl {
-				tr := effRun(p, p.Tasks[c.Ref.Target])
-				if tr == "always" {
-					c.Defer = false
-				}
-				if c.Ref.VMode == vInherit {
-					c.Ref.VMode = vNone
-				}
-				c.DeferTplV = false
 			}
 		}
 	}
@@ -422,7 +418,11 @@ func renderRefVars(p *gProg, from *gTask, r gRef, edge string, deferTpl bool) st
 	tgt := p.Tasks[r.Target]
 	var kv []string
 	if effRun(p, tgt) == "always" {
-		kv = append(kv, fmt.Sprintf("P: %s", yq(pExpr(p, from)+"/"+edge)))
+		pe := pExpr(p, from)
+		if from.VUse == "env" {
+			pe = "@" + from.Name + "({{.V}})" // $EV only exists inside the task's own shell commands
+		}
+		kv = append(kv, fmt.Sprintf("P: %s", yq(pe+"/"+edge)))
 	}
 	switch r.VMode {
 	case vLit:
@@ -615,7 +615,10 @@ func (p *gProg) YAML() string {
 func (p *gProg) Config() map[string]any {
 	roots := []string{}
 	for i, r := range p.Roots {
-		s := fmt.Sprintf("%s P=r%d", p.Tasks[r.Target].Name, i)
+		s := p.Tasks[r.Target].Name
+		if effRun(p, p.Tasks[r.Target]) == "always" {
+			s += fmt.Sprintf(" P=r%d", i)
+		}
 		if r.HasV {
 			s += " V=" + r.V
 		}
